@@ -121,14 +121,15 @@ theorem rawNext_refines (hs : StrictWeak cmp) {t : Tree K V} (hi : Inv cmp t) (f
         simp only [h1]
         exact ⟨resume_of_parkedB h3, ⟨h2, rfl⟩, h4⟩
 
-/-- **`Next` of a `Range`/`RangeReverse` iterator on the current tree is the specification's `snext` on the
-current contents**, whatever `Put`s and `Delete`s happened since the previous call. -/
-theorem iterNext_refines (hs : StrictWeak cmp) {t : Tree K V} (hi : Inv cmp t) (it : Iter K) (hc : CInv t it.c) :
-    absIter (iterNext cmp t it).1 = (snext cmp (toList t.root) (absIter it)).1 ∧
-    OutRel cmp (iterNext cmp t it).2 (snext cmp (toList t.root) (absIter it)).2 ∧
-    CInv t (iterNext cmp t it).1.c := by
+/-- **`Next` of a `Range`/`RangeReverse` iterator (in the `While` formulation `iterNextW`, equivalent to the model's
+`iterNext` by `iterNext_eq_while`) on the current tree is the specification's `snext` on the current contents**,
+whatever `Put`s and `Delete`s happened since the previous call. -/
+theorem iterNextW_refines (hs : StrictWeak cmp) {t : Tree K V} (hi : Inv cmp t) (it : Iter K) (hc : CInv t it.c) :
+    absIter (iterNextW cmp t it).1 = (snext cmp (toList t.root) (absIter it)).1 ∧
+    OutRel cmp (iterNextW cmp t it).2 (snext cmp (toList t.root) (absIter it)).2 ∧
+    CInv t (iterNextW cmp t it).1.c := by
   obtain ⟨r1, r2, r3⟩ := rawNext_refines hs hi it.fwd hc
-  unfold iterNext snext
+  unfold iterNextW snext
   cases hst : it.stop with
   | none =>
     simp only [absIter, hst]
